@@ -726,7 +726,7 @@ func (p *Program) pollObligations() []sob {
 			_ = ifi
 			for _, s := range selB.Succs {
 				if r, isRet := s.Instrs[len(s.Instrs)-1].(*ssa.Return); isRet && len(r.Results) == 2 {
-					if c, isCall := r.Results[1].(*ssa.Call); isCall {
+					if c, isCall := returnedValue(s, r.Results[1]).(*ssa.Call); isCall {
 						if fn, ok := c.Call.Value.(*ssa.Function); ok && (fn.String() == "fmt.Errorf" || fn.String() == "errors.New") {
 							okRet = true
 						}
@@ -809,6 +809,11 @@ func (p *Program) addressLeaks(f *ssa.Function, key string) []sob {
 			}
 			fc, ok := args[fi].(*ssa.Const)
 			if !ok || fc.Value == nil {
+				// the format is not a constant of this function (it comes from a script, say): any verb may be in
+				// it, %p among them, and what is handed over may hold slices, maps or pointers
+				n++
+				out = append(out, sob{Name: fmt.Sprintf("%s#determinism.address.format.%d", key, n), OK: false,
+					Src: "no formatted value prints a memory address", Detail: "the format string is not a constant: a %p in it prints the address of a slice, map or pointer operand", Pos: p.posOf(in)})
 				continue
 			}
 			format := constant.StringVal(fc.Value)
@@ -1074,6 +1079,25 @@ func (p *Program) classifyMapRange(f *ssa.Function, r *ssa.Range) (string, bool,
 						}
 					}
 				}
+			}
+		}
+	}
+	// leaving the loop from inside its body (a return, a break): which entry gets there first is up to the map
+	for b := range body {
+		if b == hdr {
+			continue
+		}
+		if len(b.Succs) == 0 {
+			if _, isRet := b.Instrs[len(b.Instrs)-1].(*ssa.Return); isRet {
+				other++
+				otherDetail = "the loop is left by a return from inside its body at " + p.posOf(b.Instrs[len(b.Instrs)-1]).String() + ": which entry gets there first depends on the order of the map"
+			}
+			continue
+		}
+		for _, sc := range b.Succs {
+			if !body[sc] && sc != hdr {
+				other++
+				otherDetail = "the loop is left from inside its body (block " + b.Comment + "): which entry gets there first depends on the order of the map"
 			}
 		}
 	}
@@ -1383,6 +1407,21 @@ func fieldNameOf(fa *ssa.FieldAddr) string {
 		return ""
 	}
 	return st.Field(fa.Field).Name()
+}
+
+// returnedValue: in a function with deferred calls a return stores its results in cells, runs the
+// deferred calls and loads the cells again; this finds the value that was stored in the returning block
+func returnedValue(b *ssa.BasicBlock, v ssa.Value) ssa.Value {
+	ld, ok := v.(*ssa.UnOp)
+	if !ok || ld.Op != token.MUL {
+		return v
+	}
+	for i := len(b.Instrs) - 1; i >= 0; i-- {
+		if st, ok := b.Instrs[i].(*ssa.Store); ok && st.Addr == ld.X {
+			return st.Val
+		}
+	}
+	return v
 }
 
 func structuralFor(p *Program, id string) []sob {
